@@ -183,7 +183,7 @@ theorem stmt_sound (hw : WFG g) (hc : CleanEnv env) (hrank : RankOK g inp) {i : 
 
 /-- a statement of a node all of whose children have values has a value -/
 theorem stmt_defined (hdef : Defined g inp) {i : Nat} {pre : Bool} {kids : List Nat}
-    {mk : List String → PyExpr} (hp : plan g i = .ok (.stmt pre kids mk))
+    {mk : List String → PyExpr} (hp : plan g i = .ok (.stmt pre kids mk)) (hs : suppNode g i = true)
     {as : List (Arr Val)} (hd : KidsDen g inp kids as) : (denV g inp i).isSome = true := by
   cases hn : (g.get i).node with
   | dict items =>
@@ -193,7 +193,7 @@ theorem stmt_defined (hdef : Defined g inp) {i : Nat} {pre : Bool} {kids : List 
     exact dict_defined _ hd
   | _ =>
     rw [denV_arr (by rw [hn]; intro items h; cases h), Option.isSome_map]
-    exact hdef i (by simp [notDict, hn])
+    exact hdef i hs (by simp [notDict, hn])
 
 /-- a node without a statement denotes what its child denotes -/
 theorem pass_sound (hw : WFG g) {i c : Nat} (hp : plan g i = .ok (.pass c))
@@ -202,7 +202,7 @@ theorem pass_sound (hw : WFG g) {i c : Nat} (hp : plan g i = .ok (.pass c))
   | alias c' =>
     simp only [plan, hn, Gen.ok.injEq, Plan.pass.injEq] at hp
     subst hp
-    simp only [suppNode, hn, kidsOf, List.all_cons, List.all_nil, Bool.and_true, Bool.and_eq_true] at hs
+    simp only [suppNode, hn, kidsOf, List.all_cons, List.all_nil, Bool.and_true] at hs
     refine ⟨?_, by simp [kidsOf, hn]⟩
     rw [denV_arr (by rw [hn]; intro items h; cases h), den_step hw]
     simp only [denoteStep, hn]
@@ -225,6 +225,214 @@ theorem pass_sound (hw : WFG g) {i c : Nat} (hp : plan g i = .ok (.pass c))
     simp only [plan, hn] at hp
     cases hsh : staticShape (g.get i).shape <;> simp [hsh] at hp
   | _ => simp [plan, hn] at hp
+
+/-- an argument of the generated function denotes the input array -/
+theorem input_sound (hw : WFG g) {i : Nat} {nm : Option String} (hp : plan g i = .ok (.input nm)) :
+    denV g inp i = (inp i).map .arr ∧ notDict g i = true ∧
+      ((g.get i).node = .placeholder (nm.getD "") ∧ nm.isSome ∨ (g.get i).node = .dataWrapper nm) := by
+  cases hn : (g.get i).node with
+  | placeholder name =>
+    simp only [plan, hn, Gen.ok.injEq, Plan.input.injEq] at hp
+    subst hp
+    refine ⟨?_, by simp [notDict, hn], Or.inl ⟨rfl, rfl⟩⟩
+    rw [denV_arr (by rw [hn]; intro items h; cases h), den_step hw]
+    simp [denoteStep, hn]
+  | dataWrapper name =>
+    simp only [plan, hn, Gen.ok.injEq, Plan.input.injEq] at hp
+    subst hp
+    refine ⟨?_, by simp [notDict, hn], Or.inr rfl⟩
+    rw [denV_arr (by rw [hn]; intro items h; cases h), den_step hw]
+    simp [denoteStep, hn]
+  | indexLambda dt e binds lits =>
+    simp only [plan, hn] at hp
+    cases hsh : staticShape (g.get i).shape with
+    | none => simp [hsh] at hp
+    | some shape =>
+      simp only [hsh, ilPlan] at hp
+      obtain ⟨bs, _, hp⟩ := Gen.bind_ok.1 hp
+      cases hr : Raise.raise e shape bs with
+      | none => simp [hr] at hp
+      | some h =>
+        simp only [hr] at hp
+        obtain ⟨pre, kids, mk, hpl⟩ := hloPlan_stmt hp
+        cases hpl
+  | reshape c' o =>
+    simp only [plan, hn] at hp
+    cases hsh : staticShape (g.get i).shape <;> simp [hsh] at hp
+  | index c ix =>
+    simp only [plan, hn] at hp
+    cases hsh : staticShape (g.get c).shape with
+    | none => simp [hsh] at hp
+    | some cshape =>
+      simp only [hsh] at hp
+      split at hp <;> cases hp
+  | _ => simp [plan, hn] at hp
+
+/-! ## the children a statement refers to are children of the node -/
+
+omit g inp env in
+theorem mem_insertBy {α : Type} (lt : α → α → Bool) (x y : α) : ∀ (l : List α),
+    y ∈ insertBy lt x l ↔ y = x ∨ y ∈ l
+  | [] => by simp [insertBy]
+  | z :: r => by
+    unfold insertBy
+    split
+    · simp
+    · simp only [List.mem_cons, mem_insertBy lt x y r]
+      constructor
+      · rintro (h | h | h)
+        · exact Or.inr (Or.inl h)
+        · exact Or.inl h
+        · exact Or.inr (Or.inr h)
+      · rintro (h | h | h)
+        · exact Or.inr (Or.inl h)
+        · exact Or.inl h
+        · exact Or.inr (Or.inr h)
+
+omit g inp env in
+theorem mem_sortBy {α : Type} (lt : α → α → Bool) (y : α) : ∀ (l : List α), y ∈ sortBy lt l ↔ y ∈ l
+  | [] => by simp [sortBy]
+  | x :: r => by simp [sortBy, mem_insertBy, mem_sortBy lt y r]
+
+omit g inp env in
+theorem slotKids_sub (binds : List (String × Nat)) (form : Nat → ScalarInfo → Gen ScalarForm)
+    (lits : List ScalarInfo) : ∀ (ops : List Raise.Operand) (k : Nat) (sl : List Slot),
+    slotsOf binds form lits k ops = .ok sl → ∀ c ∈ slotKids sl, c ∈ binds.map (·.2)
+  | [], k, sl, hs => by
+    simp only [slotsOf, Gen.ok.injEq] at hs
+    subst hs
+    simp [slotKids]
+  | .arr n :: os, k, sl, hs => by
+    simp only [slotsOf] at hs
+    cases hf : binds.find? (·.1 == n) with
+    | none => simp [hf] at hs
+    | some mc =>
+      simp only [hf] at hs
+      obtain ⟨r, hr, hsl⟩ := Gen.bind_ok.1 hs
+      simp only [Gen.ok.injEq] at hsl
+      subst hsl
+      intro c hc
+      simp only [slotKids, List.mem_cons] at hc
+      rcases hc with rfl | hc
+      · exact List.mem_map.2 ⟨mc, List.mem_of_find?_eq_some hf, rfl⟩
+      · exact slotKids_sub binds form lits os (k + 1) r hr c hc
+  | .scalar c' :: os, k, sl, hs => by
+    simp only [slotsOf] at hs
+    cases hf : findLit lits c' with
+    | none => simp [hf] at hs
+    | some info =>
+      simp only [hf] at hs
+      obtain ⟨f, _, hs⟩ := Gen.bind_ok.1 hs
+      obtain ⟨r, hr, hsl⟩ := Gen.bind_ok.1 hs
+      simp only [Gen.ok.injEq] at hsl
+      subst hsl
+      intro c hc
+      simp only [slotKids] at hc
+      exact slotKids_sub binds form lits os (k + 1) r hr c hc
+
+omit g inp env in
+theorem hloPlan_kids {cs : Nat → List (Option Nat)} {dt : DType} {shape : Shape}
+    {binds : List (String × Nat)} {lits : List ScalarInfo} {h : Raise.HLO} {pre : Bool}
+    {kids : List Nat} {mk : List String → PyExpr}
+    (hp : hloPlan cs dt shape binds lits h = .ok (.stmt pre kids mk)) :
+    ∀ c ∈ kids, c ∈ binds.map (·.2) := by
+  cases h with
+  | full c =>
+    simp only [hloPlan] at hp
+    obtain ⟨_, _, hp⟩ := Gen.bind_ok.1 hp
+    cases hp; simp
+  | binary op x1 x2 =>
+    simp only [hloPlan] at hp
+    split at hp
+    · obtain ⟨sl, hsl, hp⟩ := Gen.bind_ok.1 hp
+      cases hp; exact slotKids_sub _ _ _ _ _ _ hsl
+    · split at hp
+      · obtain ⟨sl, hsl, hp⟩ := Gen.bind_ok.1 hp
+        cases hp; exact slotKids_sub _ _ _ _ _ _ hsl
+      · cases hp
+  | call f args =>
+    simp only [hloPlan] at hp
+    obtain ⟨sl, hsl, hp⟩ := Gen.bind_ok.1 hp
+    cases hp; exact slotKids_sub _ _ _ _ _ _ hsl
+  | zerosLike x =>
+    simp only [hloPlan] at hp
+    cases hp; simp
+  | where_ c t e =>
+    simp only [hloPlan] at hp
+    obtain ⟨sl, hsl, hp⟩ := Gen.bind_ok.1 hp
+    cases hp; exact slotKids_sub _ _ _ _ _ _ hsl
+  | broadcast x =>
+    simp only [hloPlan] at hp
+    obtain ⟨sl, hsl, hp⟩ := Gen.bind_ok.1 hp
+    cases hp; exact slotKids_sub _ _ _ _ _ _ hsl
+  | logicalNot x => simp [hloPlan] at hp
+  | reduce op x axes =>
+    simp only [hloPlan] at hp
+    obtain ⟨c, hfc, hp⟩ := Gen.bind_ok.1 hp
+    rw [Gen.ofOption_ok] at hfc
+    cases hp
+    obtain ⟨mc, hfind, hmc⟩ := Option.map_eq_some_iff.1 hfc
+    intro c' hc'
+    simp only [List.mem_singleton] at hc'
+    subst hc'
+    exact List.mem_map.2 ⟨mc, List.mem_of_find?_eq_some hfind, hmc⟩
+
+omit inp env in
+theorem stmt_kids {i : Nat} {pre : Bool} {kids : List Nat} {mk : List String → PyExpr}
+    (hp : plan g i = .ok (.stmt pre kids mk)) (hs : suppNode g i = true) :
+    ∀ c ∈ kids, c ∈ kidsOf g i := by
+  cases hn : (g.get i).node with
+  | indexLambda dt e binds lits =>
+    simp only [plan, hn] at hp
+    cases hsh : staticShape (g.get i).shape with
+    | none => simp [hsh] at hp
+    | some shape =>
+      simp only [hsh, ilPlan] at hp
+      obtain ⟨bs, _, hp⟩ := Gen.bind_ok.1 hp
+      cases hr : Raise.raise e shape bs with
+      | none => simp [hr] at hp
+      | some h =>
+        simp only [hr] at hp
+        simpa [kidsOf, hn] using hloPlan_kids hp
+  | placeholder name => simp [plan, hn] at hp
+  | dataWrapper name => simp [plan, hn] at hp
+  | sizeParam name => simp [plan, hn] at hp
+  | refused k => simp [plan, hn] at hp
+  | other k => simp [plan, hn] at hp
+  | alias c => simp [plan, hn] at hp
+  | index c ix => simp [suppNode, hn] at hs
+  | einsum d cs' => simp [suppNode, hn] at hs
+  | roll c shift axis =>
+    simp only [plan, hn, Gen.ok.injEq, Plan.stmt.injEq] at hp
+    obtain ⟨_, rfl, _⟩ := hp
+    simp [kidsOf, hn]
+  | perm c p =>
+    simp only [plan, hn, Gen.ok.injEq, Plan.stmt.injEq] at hp
+    obtain ⟨_, rfl, _⟩ := hp
+    simp [kidsOf, hn]
+  | reshape c order =>
+    simp only [plan, hn] at hp
+    cases hsh : staticShape (g.get i).shape with
+    | none => simp [hsh] at hp
+    | some shape =>
+      simp only [hsh, Gen.ok.injEq, Plan.stmt.injEq] at hp
+      obtain ⟨_, rfl, _⟩ := hp
+      simp [kidsOf, hn]
+  | stack cs' axis =>
+    simp only [plan, hn, Gen.ok.injEq, Plan.stmt.injEq] at hp
+    obtain ⟨_, rfl, _⟩ := hp
+    simp [kidsOf, hn]
+  | concat cs' axis =>
+    simp only [plan, hn, Gen.ok.injEq, Plan.stmt.injEq] at hp
+    obtain ⟨_, rfl, _⟩ := hp
+    simp [kidsOf, hn]
+  | dict items =>
+    simp only [plan, hn, Gen.ok.injEq, Plan.stmt.injEq] at hp
+    obtain ⟨_, rfl, _⟩ := hp
+    intro c hc
+    obtain ⟨kv, hkv, rfl⟩ := List.mem_map.1 hc
+    simp only [kidsOf, hn]
+    exact List.mem_map.2 ⟨kv, (mem_sortBy _ _ _).1 hkv, rfl⟩
 
 end
 
